@@ -27,6 +27,17 @@ func init() {
 	for _, op := range []uint32{0x4e, 0x4f, 0x50, 0x51, 0x6e, 0x71, 0x8e, 0x91, 0xae, 0xb1, 0xce, 0xd1} {
 		add("v128.bin", false, cat(vecA(), vecB(), simd(op)))
 	}
+	// multiplication (comparisons and min/max are left out: the interpreter's lane loops branch per lane, 2^16 paths)
+	for _, op := range []uint32{0x95, 0xb5} {
+		add("v128.mul", false, cat(vecA(), vecB(), simd(op)))
+	}
+	// negation, splats
+	for _, op := range []uint32{0x61, 0x81, 0xa1, 0xc1} {
+		add("v128.neg", false, cat(vecA(), simd(op)))
+	}
+	for _, op := range []uint32{0x0f, 0x10, 0x11} {
+		add("v128.splat", false, cat(lg(4), simd(op)))
+	}
 	add("v128.not", false, cat(vecA(), simd(0x4d)))
 	add("v128.bitselect", false, cat(vecA(), vecB(), vecA(), simd(0x52)))
 	// shifts: run-time count (any i32) and constant counts around the lane width
